@@ -34,11 +34,14 @@ def _process_vlandb(rule, key, diff, hw, explicit_changing, multi_chunk):
         # switchport trunk allowed vlan none
         yield (True, "%s none" % prefix, None)
         return
-    for vlan_id in ((set(old_blocks.keys()) - set(new_blocks)) & new):
+    # вланы из строк, которые не изменились (или у которых изменилось только содержимое блока), остаются
+    (_, stays, _) = _parse_vlancfg_actions(diff[Op.UNCHANGED] + diff[Op.AFFECTED])
+    stays |= new
+    for vlan_id in ((set(old_blocks.keys()) - set(new_blocks)) & stays):
         # Удалено содержимое блока vlan, но сам влан остался
         yield (True, "%s %s" % (prefix, vlan_id), old_blocks[vlan_id])
 
-    removed = old.difference(new)
+    removed = old.difference(stays)
     added = new.difference(old)
     if hw.Catalyst:
         # Каталисты не перечисляют вланы в batch режиме, если они представлены как блоки
